@@ -5,6 +5,7 @@ import (
 	"fmt"
 	"io"
 	"os"
+	"sync"
 
 	"hash/crc64"
 	"hash/fnv"
@@ -43,7 +44,9 @@ type SSTableReader struct {
 	v0DataReader rProto.ReadAtI
 	dataReader   recordio.ReadAtI
 	metaData     *proto.MetaData
-	miscClosers  []recordio.CloseableI
+	// scanners opened by Scan, closed together with the reader; Scan may be called from several goroutines
+	miscClosersLock sync.Mutex
+	miscClosers     []recordio.CloseableI
 }
 
 func (reader *SSTableReader) Contains(key []byte) (bool, error) {
@@ -128,7 +131,7 @@ func (reader *SSTableReader) Scan() (SSTableIteratorI, error) {
 			return nil, fmt.Errorf("error in sstable '%s' while opening a scanner: %w", reader.opts.basePath, err)
 		}
 
-		reader.miscClosers = append(reader.miscClosers, dataReader)
+		reader.addCloser(dataReader)
 
 		it, err := reader.index.Iterator()
 		if err != nil {
@@ -148,7 +151,7 @@ func (reader *SSTableReader) Scan() (SSTableIteratorI, error) {
 			return nil, fmt.Errorf("error in sstable '%s' while opening a scanner: %w", reader.opts.basePath, err)
 		}
 
-		reader.miscClosers = append(reader.miscClosers, dataReader)
+		reader.addCloser(dataReader)
 
 		it, err := reader.index.Iterator()
 		if err != nil {
@@ -174,10 +177,18 @@ func (reader *SSTableReader) ScanRange(keyLower []byte, keyHigher []byte) (SSTab
 	return &SSTableIterator{reader: reader, keyIterator: it}, nil
 }
 
+func (reader *SSTableReader) addCloser(c recordio.CloseableI) {
+	reader.miscClosersLock.Lock()
+	defer reader.miscClosersLock.Unlock()
+	reader.miscClosers = append(reader.miscClosers, c)
+}
+
 func (reader *SSTableReader) Close() (err error) {
+	reader.miscClosersLock.Lock()
 	for _, e := range reader.miscClosers {
 		err = errors.Join(err, e.Close())
 	}
+	reader.miscClosersLock.Unlock()
 
 	if reader.v0DataReader != nil {
 		err = errors.Join(err, reader.v0DataReader.Close())
